@@ -66,6 +66,34 @@ theorem fill_opens_only_below_too_low (c : Cfg) (h : Int) : (enterFill c h).1 = 
 
 example : pollLow { hyst := 5, tooLow := 10, low := 30, high := 70 } 20 0 = .rearm 10 := by decide
 
+/-- **(iii) as a bound on the open time**: a poll that keeps the valve open (re-arms) ran no later than the limit after the
+    phase was entered (`since`), and re-arms with 5 s; with the timed theorem `Timing.tank_polls` (the re-armed poll is
+    delivered no later than 5 s + lag after it was armed) the controller is in `fill` (resp. `low`) at instant `now` only if
+    `now − since ≤ 2 h (resp. 6 h) + 5 s + lag`: at the next poll after the limit the emergency stop is requested
+    (`limits`), which closes the valve (`tank_halt_closes_valve`).  Times in microseconds. -/
+theorem open_time_bounded (c : Cfg) (h since poll now lag : Int) (n : Nat) :
+    (pollFill c h (poll - since) = .rearm n → now ≤ poll + n * 500000 + lag → now - since ≤ twoHours + 5000000 + lag) ∧
+    (pollLow c h (poll - since) = .rearm n → now ≤ poll + n * 500000 + lag → now - since ≤ sixHours + 5000000 + lag) := by
+  constructor
+  · simp only [pollFill]
+    split
+    · intro hh; simp at hh
+    · split
+      · intro hh; simp at hh
+      · intro hn hnow
+        have : n = 10 := by simpa using hn.symm
+        subst this; omega
+  · simp only [pollLow]
+    split
+    · intro hh; simp at hh
+    · split
+      · intro hh; simp at hh
+      · split
+        · intro hh; simp at hh
+        · intro hn hnow
+          have : n = 10 := by simpa using hn.symm
+          subst this; omega
+
 /-! ## level set in force, force-empty (Model/Guards.lean, exhaustively compared with the real methods) -/
 open Poupool.Guards in
 /-- the thresholds in force are those of the LAST mode set, whatever the history of mode changes (no cross-talk between
